@@ -16,7 +16,7 @@ def list_files(path):
 
     files = [
         os.path.join(path, f)
-        for f in os.listdir(path)
+        for f in sorted(os.listdir(path))
         if os.path.isfile(os.path.join(path, f))
     ]
     return files
